@@ -4,6 +4,7 @@ import (
 	"fmt"
 	"reflect"
 	"strings"
+	"sync"
 	"time"
 
 	"github.com/fluffle/goirc/client"
@@ -17,7 +18,7 @@ func init() {
 		ID: "C01",
 		Rule: "messages are built from generator-owned components (tags/source/verb/middles/trailing/CTCP) by an exhaustive product over small pools " +
 			"and by a PRNG grammar; the expectation is derived from the components, never from the parser; compared field by field with ParseLine's result, " +
-			"with Text/Target/Public, and with the line a foreground handler receives over an in-memory connection. A case is non-trivial/distinct by its " +
+			"with Text/Target/Public, and with the line a foreground handler receives over an in-memory connection; a concurrent batch runs the same comparison from 8 goroutines under the race detector. A case is non-trivial/distinct by its " +
 			"(tag-shape, source-kind, verb-kind, arity bucket, trailing-shape, CTCP-kind, spacing) class; distinct_nontrivial counts the classes seen.",
 		Assumptions: []string{
 			"well-formedness as delimited by the property's quantifier (single space after tags/source, U+0020 as the only white space, CTCP payload VERB SP text)",
@@ -34,10 +35,13 @@ func init() {
 			for i := 0; i < 4; i++ {
 				bs = append(bs, Batch{Name: fmt.Sprintf("wire-%d", i), Args: map[string]string{"mode": "wire", "part": fmt.Sprint(i), "parts": "4"}, Race: true, Procs: 4})
 			}
+			// several parsers at once (a process may hold several connections, each with its own receive goroutine)
+			bs = append(bs, Batch{Name: "conc", Args: map[string]string{"mode": "conc"}, Race: true, Procs: 8, Weight: 4})
 			bs = append(bs, Batch{Name: "wire-quiet", Args: map[string]string{"mode": "wire", "quiet": "1", "part": "0", "parts": "1"}, Race: true, Procs: 2})
 			return bs
 		},
-		Run: runC01,
+		RaceClaim: func(rep string) bool { return raceBothIn(rep, "client.ParseLine", "client.parseUserHost", "client.(*Line)") },
+		Run:       runC01,
 	})
 }
 
@@ -162,6 +166,28 @@ func runC01(c *Ctx) {
 		}
 	case "wire":
 		runC01Wire(c)
+	case "conc":
+		// the same differential check from 8 goroutines at once, under the race detector
+		per := c.Pick(40_000, 600_000)
+		var wg sync.WaitGroup
+		for g := 0; g < 8; g++ {
+			wg.Add(1)
+			go func(g int) {
+				defer wg.Done()
+				for i := 0; i < per; i++ {
+					idx := g*per + i
+					r := rig.Rand(c.Seed, "C01", "conc", idx)
+					m := model.RandMsg(r)
+					if !m.HasTags && i%2 == 0 {
+						m.HasTags = true
+						m.Tags = []model.Tag{{Key: fmt.Sprintf("k%d", g), Value: fmt.Sprintf("v\\%d;x y", idx), Form: 2}}
+					}
+					c01Check(c, "conc", idx, m)
+				}
+			}(g)
+		}
+		wg.Wait()
+		c.R.Count("concurrent_parses", int64(8*per))
 	}
 }
 
